@@ -107,6 +107,9 @@ def check_C14(run):
     # a third corpus for an "option storm": all goroutines parse the same few queries with bare terms under four different
     # default fields, nothing else, in a tight loop
     storm = ["status:open AND (error OR \"timed out\") AND NOT retry* AND lvl:[1 TO 5]", "a b c", "x AND NOT y OR z~2", "\"p q\" r* /s/ 4"]
+    # ... and queries whose letters and digits this process has never seen (a lazily filled table would be written by many goroutines)
+    storm += ["title:%s%s AND n:[1 TO %d] %s*" % (chr(0x4e00 + 37 * i), chr(0x3042 + i), i + 2, chr(0x0430 + i)) for i in range(40)]
+    storm += ["t%s:\u0663%d jo?n\\*s*" % (chr(0x00e0 + i), i) for i in range(20)]
     stormcorpus = os.path.join(run.work, "corpus_storm.ndjson")
     with open(stormcorpus, "w") as f:
         for q in storm:
@@ -126,6 +129,14 @@ def check_C14(run):
         p0 = subprocess.run([racebin, "conc", "-phase", "seq", "-corpus", corpus, "-out", seqf] + kargs, env=env, stdout=subprocess.PIPE, stderr=subprocess.PIPE, text=True, timeout=1800)
         p = subprocess.run([racebin, "conc", "-phase", "conc", "-corpus", corpus, "-g", str(g), "-per", str(per), "-seed", str(run.seed * 100 + i), "-out", concf] + kargs,
                            env=env, stdout=subprocess.PIPE, stderr=subprocess.PIPE, text=True, timeout=1800)
+        if p.returncode != 0 and ("concurrent map" in p.stderr or "fatal error" in p.stderr) and p0.returncode == 0:
+            # the Go runtime itself aborted the concurrent phase (unsynchronised map access ...): that is the observation
+            run.failures.append({"prop": "C14", "clause": "the Go runtime aborted the concurrent calls: " + (re.search(r"fatal error: [^\n]*", p.stderr) or re.search(r".*", "unknown")).group(0),
+                                 "q": "corpus %s, %d goroutines" % (os.path.basename(corpus), g), "detail": p.stderr[:2000],
+                                 "_replay": {"pipeline": "conc", "g": g, "per": per, "seed": run.seed * 100 + i, "corpus": corpus, "race": True, "kinds": kinds,
+                                             "queries": [json.loads(l) for l in open(corpus)]}})
+            run.stage("conc_%d" % i, goroutines=g, calls_per_goroutine=per, aborted_by_runtime=True)
+            continue
         if p.returncode != 0 or p0.returncode != 0:
             raise Broken("conc run failed: " + (p.stderr + p0.stderr)[-800:])
         cat_files([seqf, concf], trace)
